@@ -11,8 +11,8 @@ Conventions (DESIGN §4):
   false: the callback goroutine is already blocked on the mutex);
 * endpoint objects are numbered (`obj`); timers name objects, never ids, exactly like the Go
   closures capture `*endpoint`;
-* the Go map `endpoints` is a list without duplicate ids; map iteration order is irrelevant
-  because priorities are pairwise distinct (proved: `Inv.prioDistinct`).
+* the Go map `endpoints` is a list in which an id determines its entry; map iteration order is
+  irrelevant because priorities are pairwise distinct (proved: `Inv.idInj`, `Inv.prioInj`).
 -/
 namespace GcpVerif.ME
 
@@ -30,7 +30,7 @@ structure Ep where
   deriving DecidableEq, Repr, Inhabited
 
 inductive TimerKind where
-  | recovery (obj : Nat) (stamp : Option Int)
+  | recovery (obj : Nat) (id : String) (stamp : Option Int)   -- closure captures the *endpoint (obj); its id never changes
   | switch
   deriving DecidableEq, Repr
 
@@ -100,28 +100,32 @@ def stopOpt (now : Int) (ts : List Timer) : Option Nat → List Timer
   | none => ts
   | some tid => stopTimer now ts tid
 
-/-! ### endpoint objects: update by object number in `eps` and `orphans` -/
+/-! ### endpoint objects
+
+An endpoint object is either the value of the map entry under its own id (`eps`), or no longer in
+the map (`orphans`, reachable only from timer closures). -/
+
+def updId (l : List Ep) (id : String) (f : Ep → Ep) : List Ep :=
+  l.map fun e => if e.id == id then f e else e
 
 def updObj (l : List Ep) (obj : Nat) (f : Ep → Ep) : List Ep :=
   l.map fun e => if e.obj == obj then f e else e
 
-def findObj (s : St) (obj : Nat) : Option Ep :=
-  match s.eps.find? (fun e => e.obj == obj) with
-  | some e => some e
-  | none => s.orphans.find? (fun e => e.obj == obj)
+def touch (st : Status) (now : Int) (x : Ep) : Ep := { x with status := st, lastChange := some now }
 
-/-- `setState(e, st)`: stop e.futureChange, set status and lastChange := now -/
-def setState (s : St) (e : Ep) (st : Status) : St :=
-  let f := fun (x : Ep) => { x with status := st, lastChange := some s.now }
-  { s with timers := stopOpt s.now s.timers e.timer,
-           eps := updObj s.eps e.obj f, orphans := updObj s.orphans e.obj f }
+/-- `setState(e, st)` for `e = me.endpoints[id]`: stop e.futureChange, set status, lastChange := now -/
+def setStateEp (s : St) (e : Ep) (st : Status) : St :=
+  { s with timers := stopOpt s.now s.timers e.timer, eps := updId s.eps e.id (touch st s.now) }
 
-/-- `scheduleUnavailable(e)` for the object `obj` whose `lastChange` is `stamp` -/
-def scheduleUnavailable (s : St) (obj : Nat) (stamp : Option Int) : St :=
+/-- `setState(e, st)` for an object that is no longer in the map -/
+def setStateOrphan (s : St) (e : Ep) (st : Status) : St :=
+  { s with timers := stopOpt s.now s.timers e.timer, orphans := updObj s.orphans e.obj (touch st s.now) }
+
+/-- `scheduleUnavailable(e)` for `e = me.endpoints[id]` whose `lastChange` is `stamp` -/
+def scheduleUnavailable (s : St) (e : Ep) (stamp : Option Int) : St :=
   let tid := s.nextTid
-  let s := addTimer s s.r (.recovery obj stamp)
-  let f := fun (x : Ep) => { x with timer := some tid }
-  { s with eps := updObj s.eps obj f, orphans := updObj s.orphans obj f }
+  let s := addTimer s s.r (.recovery e.obj e.id stamp)
+  { s with eps := updId s.eps e.id fun x => { x with timer := some tid } }
 
 /-- `newEndpoint(id, priority)`; returns the state (timer scheduled) and the new object -/
 def newEndpoint (s : St) (id : String) (prio : Nat) : St × Ep :=
@@ -130,28 +134,34 @@ def newEndpoint (s : St) (id : String) (prio : Nat) : St × Ep :=
   let s := { s with nextObj := s.nextObj + 1 }
   if s.r > 0 then
     let tid := s.nextTid
-    let s := addTimer s s.r (.recovery e.obj none)
+    let s := addTimer s s.r (.recovery e.obj id none)
     (s, { e with timer := some tid })
   else (s, e)
 
 /-! ### maybeUpdateCurrent / switchFromTo -/
 
+/-- `f == nil || f.status == unavailable` -/
+def goneOrUnavailable : Option Ep → Bool
+  | none => true
+  | some f => f.status == .unavailable
+
 def switchFromTo (s : St) (f : Option Ep) (t : Ep) : St :=
   if s.current == t.id then s
-  else if s.d == 0 || (match f with | none => true | some f => f.status == .unavailable) then
+  else if s.d == 0 || goneOrUnavailable f then
     { s with current := t.id }
   else
     addTimer { s with future := t.id } s.d .switch
 
+/-- `exists && c.status == recovering && (topA == nil || topA.priority > c.priority)` -/
+def isProtected : Option Ep → Option Ep → Bool
+  | some c, none => c.status == .recovering
+  | some c, some t => c.status == .recovering && decide (t.prio > c.prio)
+  | none, _ => false
+
 def maybeUpdateCurrent (s : St) : St :=
   let c := findEp s.eps s.current
   let topA := topAvail s.eps
-  let protected_ : Bool :=
-    match c with
-    | some c => c.status == .recovering &&
-        (match topA with | none => true | some t => t.prio > c.prio)
-    | none => false
-  if protected_ then s
+  if isProtected c topA then s
   else match topA with
     | some t => switchFromTo s c t
     | none =>
@@ -160,7 +170,7 @@ def maybeUpdateCurrent (s : St) : St :=
       | none =>
         match topOf s.eps with
         | some t => { s with current := t.id }
-        | none => s        -- unreachable: the map is never empty (`Inv.nonempty`)
+        | none => s        -- unreachable: the map is never empty (`Base.nonempty`)
 
 /-! ### API operations -/
 
@@ -168,12 +178,12 @@ def setEndpointAvailability (s : St) (id : String) (avail : Bool) : St :=
   match findEp s.eps id with
   | none => s
   | some ee =>
-    if avail then setState s ee .available
+    if avail then setStateEp s ee .available
     else if ee.status != .available then s
-    else if s.r == 0 then setState s ee .unavailable
+    else if s.r == 0 then setStateEp s ee .unavailable
     else
-      let s := setState s ee .recovering
-      scheduleUnavailable s ee.obj (some s.now)
+      let s := setStateEp s ee .recovering
+      scheduleUnavailable s ee (some s.now)
 
 def opSetAvail (s : St) (id : String) (avail : Bool) : St :=
   maybeUpdateCurrent (setEndpointAvailability s id avail)
@@ -184,18 +194,19 @@ def addOrUpdate (s : St) : List String → Nat → St
   | id :: rest, i =>
     match findEp s.eps id with
     | none =>
-      let (s, e) := newEndpoint s id i
-      addOrUpdate { s with eps := s.eps ++ [e] } rest (i + 1)
+      let r := newEndpoint s id i
+      addOrUpdate { r.1 with eps := r.1.eps ++ [r.2] } rest (i + 1)
     | some _ =>
       addOrUpdate { s with eps := s.eps.map fun e => if e.id == id then { e with prio := i } else e } rest (i + 1)
 
+/-- the "remove obsolete endpoints" loop of SetEndpoints -/
+def dropObsolete (s : St) (l : List String) : St :=
+  { s with eps := s.eps.filter (fun e => l.contains e.id),
+           orphans := s.orphans ++ s.eps.filter (fun e => !l.contains e.id) }
+
 def opSetEndpoints (s : St) (l : List String) : St × Out :=
   if l.isEmpty then (s, .err)
-  else
-    let keep := s.eps.filter fun e => l.contains e.id
-    let gone := s.eps.filter fun e => !l.contains e.id
-    let s := { s with eps := keep, orphans := s.orphans ++ gone }
-    (maybeUpdateCurrent (addOrUpdate s l 0), .ok)
+  else (maybeUpdateCurrent (addOrUpdate (dropObsolete s l) l 0), .ok)
 
 def removeTimer (ts : List Timer) (tid : Nat) : List Timer := ts.filter fun t => t.tid != tid
 
@@ -214,13 +225,21 @@ def fireSwitch (s : St) : St :=
     else s
   | none => s
 
-/-- the closure of scheduleUnavailable -/
-def fireRecovery (s : St) (obj : Nat) (stamp : Option Int) : St :=
-  match findObj s obj with
-  | none => s
+/-- the closure of scheduleUnavailable; `e` is the captured object -/
+def fireRecovery (s : St) (obj : Nat) (id : String) (stamp : Option Int) : St :=
+  let inMap := match findEp s.eps id with
+    | some e => if e.obj == obj then some e else none
+    | none => none
+  match inMap with
   | some e =>
     if e.lastChange != stamp then s
-    else maybeUpdateCurrent (setState s e .unavailable)
+    else maybeUpdateCurrent (setStateEp s e .unavailable)
+  | none =>
+    match s.orphans.find? (fun e => e.obj == obj) with
+    | none => s      -- unreachable: a captured object is in the map or an orphan
+    | some e =>
+      if e.lastChange != stamp then s
+      else maybeUpdateCurrent (setStateOrphan s e .unavailable)
 
 def opFire (s : St) (tid : Nat) : St × Out :=
   match s.timers.find? (fun t => t.tid == tid) with
@@ -231,7 +250,7 @@ def opFire (s : St) (tid : Nat) : St × Out :=
       let s := { s with timers := removeTimer s.timers tid }
       match t.kind with
       | .switch => (fireSwitch s, .ok)
-      | .recovery obj stamp => (fireRecovery s obj stamp, .ok)
+      | .recovery obj id stamp => (fireRecovery s obj id stamp, .ok)
 
 def step (s : St) : Op → St × Out
   | .setAvail e a => (opSetAvail s e a, .ok)
@@ -245,10 +264,9 @@ def step (s : St) : Op → St × Out
 def initLoop (s : St) : List String → Nat → St
   | [], _ => s
   | id :: rest, i =>
-    let (s, e) := newEndpoint s id i
-    let old := s.eps.filter fun x => x.id == id
-    let s := { s with eps := (s.eps.filter fun x => x.id != id) ++ [e], orphans := s.orphans ++ old }
-    initLoop s rest (i + 1)
+    let r := newEndpoint s id i
+    let old := r.1.eps.filter fun x => x.id == id
+    initLoop { r.1 with eps := (r.1.eps.filter fun x => x.id != id) ++ [r.2], orphans := r.1.orphans ++ old } rest (i + 1)
 
 /-- `NewMultiEndpoint`; `none` = rejected (empty list) -/
 def init (r d : Int) (l : List String) : Option St :=
